@@ -173,7 +173,7 @@ def make_server_delegate(mode, rec):
     return SD()
 
 
-def execute(reqname, mode, k, fault, release_first):
+def execute(reqname, mode, k, fault, release_first, j=None):
     from tornado.httpserver import HTTPServer
     from tornado.iostream import IOStream
     data, bodies = REQS[reqname]
@@ -200,7 +200,12 @@ def execute(reqname, mode, k, fault, release_first):
                     rec.later.remove(fn)
                     fn()
                 w.pump()
-        sock.feed(data[:k])
+        if j is not None and 0 < j < k:
+            sock.feed(data[:j])          # an earlier segment boundary (thorough tier)
+            w.pump()
+            sock.feed(data[j:k])
+        else:
+            sock.feed(data[:k])
         w.pump()
         if release_first:
             release_all()
@@ -286,6 +291,9 @@ def all_cases(tier):
                 for k in ks:
                     for rf in ((False, True) if ("gated" in mode or "later" in mode or "async" in mode) else (False,)):
                         yield (reqname, mode, k, fault, rf)
+                        if tier == "thorough" and reqname in ("cl", "chunked", "pair", "expect") and fault in ("eof", "silence"):
+                            for j in range(1, k, 3):
+                                yield (reqname, mode, k, fault, rf, j)
 
 
 class C05(Check):
@@ -335,7 +343,8 @@ class C05(Check):
                 st.note(nkey)
             for sig, msg in verdict:
                 st.violation("%s:%s" % (case[1].split("-")[0], sig),
-                             "request %s mode %s cut at byte %d fault %s release_first=%r: %s" % (case + (msg,)),
+                             "request %s mode %s cut at byte %d fault %s release_first=%r%s: %s"
+                             % (case[:5] + ((" first segment %d bytes" % case[5]) if len(case) > 5 else "", msg)),
                              {"case": case})
 
     def replay(self, case):
